@@ -1,8 +1,8 @@
 (* Proofs/CallbacksEngine.v — the event log of a graph run under every interleaving of its
    parallel nodes: [exactly_once_paired_proof] (flat graph: the graph unit and n parallel
    node units, every schedule, every way the graph-level handlers were built, every slice
-   capacity and growth policy), [exactly_once_count], and the independence of the stream
-   copies handed to handlers ([stream_copies_independent]). *)
+   capacity and growth policy) and the counting lemmas.  (The stream copies are in
+   Proofs/CallbacksStream.v, the nested engine in Proofs/CallbacksSched.v.) *)
 From Coq Require Import List Arith Lia Bool NArith Permutation.
 From Eino Require Import Base.Util Base.GoSlice Model.Callbacks Proofs.CallbacksSlice Proofs.Callbacks.
 Import ListNotations.
@@ -125,9 +125,6 @@ Record fnode := { fn_key : ukey; fn_info : info; fn_opts : list (list handler);
 Definition fprog (g : ukey) (n : fnode) : list op :=
   [OAppend (Some g) (fn_key n) (fn_info n) (fn_opts n); OOn (fn_key n) (fn_start n); OOn (fn_key n) (fn_end n)].
 
-(* the handlers a unit with list l is served at timing t *)
-Definition served (w : world) (u : ukey) (inf : info) (l : list handler) (t : timing) : list event :=
-  events_of u t inf (select w t (l ++ w_globals w)).
 
 Lemma mentions_creates u o : creates o = Some u -> mentions u o = true.
 Proof. destruct o; simpl; intros H; try discriminate; injection H as ->; apply N.eqb_refl. Qed.
@@ -135,11 +132,12 @@ Proof. destruct o; simpl; intros H; try discriminate; injection H as ->; apply N
 Lemma ons_of_filter u l : ons_of u l = ons_of u (filter (mentions u) l).
 Proof.
   unfold ons_of. induction l as [|o l IH]; simpl; auto.
-  destruct o as [new inf o0 hs spare | parent new inf opts | p new inf | v t]; simpl.
+  destruct o as [new inf o0 hs spare | parent new inf opts | p new inf | v t | src new inf lo hi]; simpl.
   - destruct (N.eqb new u); simpl; auto.
   - destruct (N.eqb new u); simpl; auto.
   - destruct (N.eqb new u); simpl; auto.
   - destruct (N.eqb v u) eqn:E; simpl; [rewrite E; simpl; now rewrite IH | auto].
+  - destruct (N.eqb new u); simpl; auto.
 Qed.
 
 Lemma ons_of_app u a b : ons_of u (a ++ b) = ons_of u a ++ ons_of u b.
@@ -341,212 +339,3 @@ Proof.
   rewrite H. rewrite !andb_false_r. simpl. auto.
 Qed.
 
-(* ---------------------------------------------------------------- stream copies *)
-
-(* One stream payload handed to n handlers and to the flow (OnWithStreamHandle: cpy(n+1)).
-   A copy parent holds the items pulled from the source so far; every child has its own
-   cursor (None = closed).  This is the list-level content of schema's copy readers
-   (property C08); what C10 needs is that the flow's reads do not depend on what the
-   handlers do with their copies. *)
-Record copies := { cp_src : list N; cp_buf : list N; cp_cur : list (option nat) }.
-
-Inductive cact := CRecv (i : nat) | CClose (i : nat).
-
-Definition copy_n (src : list N) (n : nat) : copies :=
-  {| cp_src := src; cp_buf := []; cp_cur := repeat (Some 0) n |}.
-
-(* one action; returns the item received (None: end of stream / closed / not a recv) *)
-Definition cstep (c : copies) (a : cact) : copies * option N :=
-  match a with
-  | CClose i => ({| cp_src := cp_src c; cp_buf := cp_buf c; cp_cur := set_nth (cp_cur c) i None |}, None)
-  | CRecv i =>
-      match nth_error (cp_cur c) i with
-      | Some (Some k) =>
-          match nth_error (cp_buf c) k with
-          | Some v => ({| cp_src := cp_src c; cp_buf := cp_buf c; cp_cur := set_nth (cp_cur c) i (Some (S k)) |}, Some v)
-          | None =>
-              match cp_src c with
-              | v :: src' => ({| cp_src := src'; cp_buf := cp_buf c ++ [v];
-                                 cp_cur := set_nth (cp_cur c) i (Some (S k)) |}, Some v)
-              | [] => (c, None)
-              end
-          end
-      | _ => (c, None)
-      end
-  end.
-
-(* what child i has received over a sequence of actions *)
-Fixpoint received (c : copies) (i : nat) (acts : list cact) : list N :=
-  match acts with
-  | [] => []
-  | a :: acts' =>
-      let r := cstep c a in
-      match a, snd r with
-      | CRecv j, Some v => if Nat.eqb j i then v :: received (fst r) i acts' else received (fst r) i acts'
-      | _, _ => received (fst r) i acts'
-      end
-  end.
-
-(* invariant: the buffer followed by the rest of the source is the original stream, and no
-   cursor is beyond the buffer *)
-Definition cinv (orig : list N) (c : copies) : Prop :=
-  cp_buf c ++ cp_src c = orig /\
-  forall i k, nth_error (cp_cur c) i = Some (Some k) -> k <= List.length (cp_buf c).
-
-Lemma cstep_inv orig c a : cinv orig c -> cinv orig (fst (cstep c a)).
-Proof.
-  intros [E B]. destruct a as [i|i]; simpl.
-  - destruct (nth_error (cp_cur c) i) as [[k|]|] eqn:Hi; simpl; try (split; auto; fail).
-    destruct (nth_error (cp_buf c) k) as [v|] eqn:Hk; simpl.
-    + split; auto. intros j k' Hj. simpl in Hj.
-      destruct (Nat.eq_dec i j) as [->|Hne].
-      * rewrite (set_nth_nth_error_same _ _ _ _ Hi) in Hj. injection Hj as <-.
-        assert (k < List.length (cp_buf c)) by (apply nth_error_Some; congruence). simpl. lia.
-      * rewrite set_nth_nth_error_other in Hj by auto. eauto.
-    + destruct (cp_src c) as [|v src'] eqn:Hs; simpl; [split; [rewrite Hs; auto | auto]|].
-      split; simpl.
-      * rewrite <- app_assoc. simpl. exact E.
-      * intros j k' Hj. rewrite app_length. simpl.
-        destruct (Nat.eq_dec i j) as [->|Hne].
-        -- rewrite (set_nth_nth_error_same _ _ _ _ Hi) in Hj. injection Hj as <-.
-           specialize (B _ _ Hi). simpl. lia.
-        -- rewrite set_nth_nth_error_other in Hj by auto. specialize (B _ _ Hj). simpl. lia.
-  - split; auto. simpl. intros j k Hj.
-    destruct (Nat.eq_dec i j) as [->|Hne].
-    + destruct (nth_error (cp_cur c) j) eqn:Hc.
-      * rewrite (set_nth_nth_error_same _ _ _ _ Hc) in Hj. discriminate.
-      * apply nth_error_None in Hc.
-        assert (nth_error (set_nth (cp_cur c) j None) j = None).
-        { apply nth_error_None. now rewrite set_nth_length. }
-        congruence.
-    + rewrite set_nth_nth_error_other in Hj by auto. eauto.
-Qed.
-
-(* what child i sees as a function of the original stream and of ITS OWN actions only *)
-Fixpoint view (orig : list N) (cur : option nat) (i : nat) (acts : list cact) : list N :=
-  match acts with
-  | [] => []
-  | CRecv j :: acts' =>
-      if Nat.eqb j i then
-        match cur with
-        | Some k => match nth_error orig k with
-                    | Some v => v :: view orig (Some (S k)) i acts'
-                    | None => view orig cur i acts'
-                    end
-        | None => view orig None i acts'
-        end
-      else view orig cur i acts'
-  | CClose j :: acts' => if Nat.eqb j i then view orig None i acts' else view orig cur i acts'
-  end.
-
-Lemma cinv_item orig c k :
-  cinv orig c -> k <= List.length (cp_buf c) ->
-  nth_error orig k =
-  match nth_error (cp_buf c) k with
-  | Some v => Some v
-  | None => match cp_src c with v :: _ => Some v | [] => None end
-  end.
-Proof.
-  intros [E _] Hk. rewrite <- E.
-  destruct (nth_error (cp_buf c) k) as [v|] eqn:Hb.
-  - rewrite nth_error_app1; auto. apply nth_error_Some. congruence.
-  - apply nth_error_None in Hb. assert (k = List.length (cp_buf c)) by lia. subst k.
-    rewrite nth_error_app2, Nat.sub_diag by lia. destruct (cp_src c); reflexivity.
-Qed.
-
-Lemma received_view orig acts : forall c i cur,
-  cinv orig c -> nth_error (cp_cur c) i = Some cur ->
-  received c i acts = view orig cur i acts.
-Proof.
-  induction acts as [|a acts IH]; intros c i cur Inv Hc; simpl; auto.
-  pose proof (cstep_inv orig c a Inv) as Inv'.
-  destruct a as [j|j]; simpl in *.
-  - destruct (Nat.eqb j i) eqn:Eji.
-    + apply Nat.eqb_eq in Eji. subst j. rewrite Hc in *.
-      destruct cur as [k|]; simpl in *; [|apply IH; auto].
-      pose proof (cinv_item orig c k Inv (proj2 Inv _ _ Hc)) as It. rewrite It.
-      destruct (nth_error (cp_buf c) k) as [v|] eqn:Hb; simpl in *.
-      * rewrite Nat.eqb_refl. f_equal. apply IH; auto. simpl.
-        eapply set_nth_nth_error_same; eauto.
-      * destruct (cp_src c) as [|v src'] eqn:Hs; simpl in *; [apply IH; auto|].
-        rewrite Nat.eqb_refl. f_equal. apply IH; auto. simpl.
-        eapply set_nth_nth_error_same; eauto.
-    + apply Nat.eqb_neq in Eji.
-      destruct (nth_error (cp_cur c) j) as [[k|]|] eqn:Hj; simpl in *; try (apply IH; auto; fail).
-      destruct (nth_error (cp_buf c) k) as [v|] eqn:Hb; simpl in *.
-      * apply Nat.eqb_neq in Eji. rewrite Eji. apply Nat.eqb_neq in Eji.
-        apply IH; auto. simpl. rewrite set_nth_nth_error_other; auto.
-      * destruct (cp_src c) as [|v src'] eqn:Hs; simpl in *; [apply IH; auto|].
-        apply Nat.eqb_neq in Eji. rewrite Eji. apply Nat.eqb_neq in Eji.
-        apply IH; auto. simpl. rewrite set_nth_nth_error_other; auto.
-  - destruct (Nat.eqb j i) eqn:Eji.
-    + apply Nat.eqb_eq in Eji. subst j. apply IH; auto. simpl.
-      eapply set_nth_nth_error_same; eauto.
-    + apply Nat.eqb_neq in Eji. apply IH; auto. simpl.
-      rewrite set_nth_nth_error_other; auto.
-Qed.
-
-Lemma copy_n_inv src n : cinv src (copy_n src n).
-Proof.
-  split; simpl; auto. intros i k H.
-  apply nth_error_In, repeat_spec in H. injection H as <-. lia.
-Qed.
-
-Lemma copy_n_cursor src n i : i < n -> nth_error (cp_cur (copy_n src n)) i = Some (Some 0).
-Proof.
-  intros H. simpl. revert i H. induction n as [|n IH]; intros [|i] H; simpl; auto; try lia.
-  apply IH. lia.
-Qed.
-
-(* What a reader of one copy receives is determined by the original stream and by that
-   reader's own recv / close actions: whatever the other readers do (read all, read a
-   little, close at once, never read), in whatever order. *)
-Theorem stream_copies_independent src n i acts :
-  i < n -> received (copy_n src n) i acts = view src (Some 0) i acts.
-Proof.
-  intros H. apply received_view; [apply copy_n_inv | now apply copy_n_cursor].
-Qed.
-
-Definition own (i : nat) (a : cact) : bool :=
-  match a with CRecv j => Nat.eqb j i | CClose j => Nat.eqb j i end.
-
-Lemma view_own orig i acts : forall cur, view orig cur i acts = view orig cur i (filter (own i) acts).
-Proof.
-  induction acts as [|a acts IH]; intros cur; simpl; auto.
-  destruct a as [j|j]; simpl; destruct (Nat.eqb j i) eqn:E; simpl; rewrite ?E; auto.
-  - destruct cur as [k|]; auto. destruct (nth_error orig k); auto. now rewrite IH.
-Qed.
-
-Corollary stream_copies_same_own src n i acts1 acts2 :
-  i < n -> filter (own i) acts1 = filter (own i) acts2 ->
-  received (copy_n src n) i acts1 = received (copy_n src n) i acts2.
-Proof.
-  intros H E. rewrite !stream_copies_independent by auto.
-  rewrite (view_own src i acts1), (view_own src i acts2), E. reflexivity.
-Qed.
-
-(* a reader that keeps receiving gets the whole stream, in order *)
-Lemma view_all orig i : forall k rest,
-  skipn k orig = rest ->
-  view orig (Some k) i (repeat (CRecv i) (List.length rest)) = rest.
-Proof.
-  intros k rest. revert k. induction rest as [|v rest IH]; intros k H; simpl; auto.
-  rewrite Nat.eqb_refl.
-  assert (Hk : nth_error orig k = Some v).
-  { rewrite <- (firstn_skipn k orig) at 1. rewrite H.
-    assert (k <= List.length orig).
-    { destruct (le_lt_dec k (List.length orig)); auto. rewrite skipn_all2 in H by lia. discriminate. }
-    rewrite nth_error_app2 by (rewrite firstn_length; lia).
-    rewrite firstn_length, Nat.min_l, Nat.sub_diag by auto. reflexivity. }
-  rewrite Hk. f_equal. apply IH.
-  rewrite <- (Nat.add_1_l k), <- skipn_skipn, H. reflexivity.
-Qed.
-
-Corollary flow_reads_everything src n i others :
-  i < n -> (forall a, In a others -> own i a = false) ->
-  forall acts, filter (own i) acts = repeat (CRecv i) (List.length src) ->
-  received (copy_n src n) i acts = src.
-Proof.
-  intros H _ acts E. rewrite stream_copies_independent by auto.
-  rewrite view_own, E. apply view_all. reflexivity.
-Qed.
